@@ -1,44 +1,64 @@
 CHECK = {
     "lean_module": "MidnightZK.Props.C12",
     "harness": "h-c12",
-    "translators": ["c12_consts"],
+    "translators": ["c12_consts", "c12_parsites"],
     "level": "proof",
-    "technique": "Lean 4 theorems over an executable model + translator-regenerated constants + line-by-line correspondence with the real entry points (and, through verif-hooks, with the private get_booth_index, batch_add and Schedule of msm.rs)",
+    "technique": "Lean 4 theorems over an executable model + translator-regenerated constants and parallel-site inventory + line-by-line correspondence with the real entry points (and, through verif-hooks, with the private get_booth_index, batch_add, Schedule and the traced driving loop of msm_best in msm.rs, and with powers / inner_product / evals_inner_product / distribute_powers_zeta of the proofs crate)",
     "rule": "one evaluation = one request line answered by both the Rust entry point and the Lean model "
             "(MSM entry x length x scalar/base classes x thread pool; Booth digit rows; batch_add batch x operand classes "
             "{chord, doubling +/-, cancellation +/-, empty bucket, repeated bucket, vertical tangent} x batch size 0..64; "
-            "Schedule decision traces x window size; FFT size x pool x input class; "
-            "eval_polynomial/kate_division/lagrange_interpolate/compute_inner_product per length; EvaluationDomain method per (j,k)); "
+            "Schedule decision traces x window size; the real msm_best loop x window size (natural and forced) as result + per-window digest of the (digit, decision) trace; "
+            "FFT size x pool x input class; eval_polynomial/kate_division/lagrange_interpolate/compute_inner_product per length; EvaluationDomain method per (j,k); "
+            "every parallelize / chunked site of the inventory x pools {1,2,3,5,6,7,8,12,16} x lengths 0..70 and 2^k+-1 where the API admits the length "
+            "(parallelize itself, eval_polynomial, distribute_powers_zeta, Polynomial +/-/*scalar, MSMKZG::scale; 2^k only: unsafe_setup g / g_lagrange, the domain conversions, g_to_lagrange, best_fft); "
+            "powers / inner_product / evals_inner_product per length); "
             "non-trivial = more than one term / size > 1; distinctness by hash of the request line",
     "explanation": "Lean theorems (all lengths, all thread counts, abstract commutative group / ring / field) over the executable "
                    "model of MSM/FFT/domain algebra; the model is tied to the implementation by running both on the same "
                    "requests and diffing, the field constants are re-parsed from the source on every run, and the harness "
                    "checks the property's oracle (naive sum / naive DFT / Horner / round trips / the curve's own group law per "
-                   "batch_add entry) directly on the implementation. Deliberately tight lines: `sched` compares the decision "
-                   "trace of Schedule (diverted / pending count / flush at 64), so a behaviour-preserving change of "
+                   "batch_add entry / the serial definition of every index-wise map) directly on the implementation. "
+                   "Parallel sites: translators/c12_parsites.py lists every parallelize( / par_chunks / .chunks( / chunks_exact / par_iter / rayon::scope|join|spawn / "
+                   "current_num_threads of arithmetic.rs, poly/domain.rs, poly/mod.rs, poly/kzg/*.rs, curves/src/{fft,msm}.rs as (file, fn, kind); "
+                   "par_sites_all_reviewed compares the list with the reviewed one, so a NEW site (or one that moved / changed kind) breaks a theorem until it has a mirror; "
+                   "the text of a site is deliberately not part of the key (rewording does not fire; the behaviour is tied by the lines under the nine pools, "
+                   "whose Lean side chunks exactly as parallelize does for that pool and runs the worker closure as written: running index, start + i, running product from s^start, zip with rhs[start..]). "
+                   "Deliberately tight lines: `sched` compares the decision "
+                   "trace of Schedule (diverted / pending count / flush at 64) and `msmbestw` the per-coefficient decisions of the real msm_best loop (zero digit / identity base / Jacobian / scheduled), "
+                   "so a behaviour-preserving change of "
                    "Schedule::contains (e.g. scanning only set[..ptr], which would let bucket 0 use the affine path) shows up as "
                    "a model/impl difference without a failing input; `batchadd-*-dup` / `-vertical` lines pin the code's behaviour "
-                   "outside the schedule invariant (never reached from msm_best).",
+                   "outside the schedule invariant (never reached from msm_best); `polyop ... addassign` with a shorter right-hand side pins the thread-DEPENDENT "
+                   "behaviour of Polynomial + Polynomial of different lengths (value on few threads, panic on many; not reachable between polynomials of one domain).",
     "trusted_base": [
         "blst group and field arithmetic (bases, buckets, multi_exp) is modelled as an abstract commutative group / as the naive sum and compared by correspondence only",
         "the driver's own affine BLS12-381/BN254 G1 arithmetic (Model/C12/Curve.lean) used to print [k]G; its constants are proved on-curve and of order r by kernel evaluation",
         "ff::Field::pow_vartime, batch_invert and invert are specified as power / inverse (0 stays 0 / invert(0) = None)",
-        "that the affine chord/tangent point is the group sum (associativity etc.) is the group law of C11; here: shared-inversion algebra, case decision and closure on y^2 = x^3 + b",
+        "that the affine chord/tangent law is a group law (AffineLaw: finite points non-zero, (x,-y) the opposite, chord/tangent point = sum) is the single hypothesis of batch_add_refines_schedule; it is the classical group law (C11 proves the Rust formulas against the affine law, not associativity) and is not instantiated here",
+        "rayon runs every spawned closure / every par_iter item exactly once (MSMKZG::scale and the par_iter maps of msm_best have no thread parameter in the model)",
+        "MSM over G2 (BLS12-381 and BN254: coordinates in Fp2) is checked by the harness oracle only ([sum s_i b_i]G2 computed by the curve's own scalar multiplication); the driver has no Fp2 arithmetic",
     ],
-    "level_text": "Kernel-checked Lean theorems about an executable model of the MSM/FFT/evaluation-domain algorithms (all lengths, all sizes, all thread counts, batch-affine path down to the coordinate formulas with the shared inversion), with the model checked against the real entry points and the private batch_add/Schedule on every run",
+    "level_text": "Kernel-checked Lean theorems about an executable model of the MSM/FFT/evaluation-domain algorithms (all lengths, all sizes, all thread counts; every parallelize/chunked site of the anchored files mirrored with its worker closure and proved thread-independent, the inventory regenerated from the sources; batch-affine path down to the coordinate formulas with the shared inversion and tied to the abstract-group schedule by a refinement theorem), with the model checked against the real entry points, the private batch_add/Schedule and the traced driving loop of msm_best on every run",
     "level_note": "Trusted: Lean kernel, the correspondence harness and driver; blst group arithmetic and rayon's scheduler are modelled, not verified. "
-                  "l_i_range at a domain point is a recorded known finding (full-strength statement disproved in Lean, partial theorem off the nodes). "
-                  "The bit-reversal swap loop = recursive permutation is now proved for every log_n (bitrev_swap_eq_rec), so best_fft_eq_dft, "
-                  "coeff_to_lagrange/extended_spec and ifft_fft_id carry no size cap and no permutation hypothesis. "
+                  "l_i_range at a domain point is a recorded known finding (full-strength statement disproved in Lean, partial theorem off the nodes; l_i_rotation_periodic and l_i_closed_form_eq_basis_polynomial cover beyond-n / negative indices and tie the closed form to the Lagrange basis polynomial). "
+                  "Thread independence: parallelize_partition + parallelize_indexed_indep / parallelize_map_indep (generic), and per site distribute_powers_zeta_par_indep, ifft_par_indep, domain_conversions_par_indep, "
+                  "divide_by_vanishing_par_indep, g_to_lagrange_par_indep, poly_zip_par_indep (hypothesis: rhs at least as long as lhs — with a shorter rhs the CODE is thread-dependent, shown by an example and pinned by correspondence), "
+                  "poly_scale_par_indep, setup_g_par_indep, setup_g_lagrange_par_indep (off the domain; = [l_i(s)]G), read_points_par_indep, msm_scale_spec, besides eval_chunked_eq_horner, msm_parallel_spec, best_fft_eq_dft of round 1; "
+                  "par_sites_all_reviewed re-checks the inventory (32 sites). read_custom's parallel decode is tied by a write/read round trip under the nine pools (oracle), not line by line. "
+                  "extended_to_coeff_spec / extended_to_lagrange_spec compose ifft_fft_id with the coset scaling (zeta^3 = 1) and the truncation; rotate_extended does not exist in the pinned tree and extended_to_coeff does not truncate there (extended_to_lagrange does). "
+                  "powers_spec, inner_product_spec (field items), truncate_spec; truncate is NOT tied (feature truncated-challenges is off in the harness build); evals_inner_product_spec (equal lengths); inner_product over polynomial items is mirrored and compared line by line, without a theorem. "
                   "batch_add is modelled at coordinate level (two loops, one inversion, doubling / cancellation / empty-bucket branches, panics) and "
                   "proved to perform each entry's own chord/tangent step under the schedule invariant (schedule_invariant, batch_add_spec; hypothesis: no vertical tangent, "
                   "i.e. no point of order two, true for every CurveAffine of the crate; tangent slope 3x^2/2y assumes a = 0, also true for all of them); "
-                  "the step from 'chord/tangent point' to 'group sum' is C11's. The abstract-group Schedule model and the coordinate-level batch_add model are tied to the code separately "
-                  "(sched / batchadd lines), not to each other by a refinement theorem.",
+                  "batch_add_refines_schedule ties it to the abstract-group Schedule::execute of msm_best_spec under the single hypothesis AffineLaw (the curve's group law; not instantiated). "
+                  "msm_best_windows_spec proves the window loop for every window size 1..24 and msm_best_eq_windows identifies msm_best with it above the threshold; the hook verif_trace records the real loop's per-coefficient decisions (natural window 10 and forced windows 3, 6, 9 in quick) and they are compared with windowBestTrace through a per-window digest. "
+                  "The only CurveAffine types of the crate are BLS12-381 G1/G2 and BN254 G1/G2 (Jubjub and secp256k1 do not implement the trait and cannot reach msm_specific / msm_best); scalars >= r cannot reach the MSM through the field type (to_repr reduces): "
+                  "unreduced Montgomery limbs built with from_raw_bytes_unchecked are exercised and agree with the reduced value.",
     "assumptions": [
         "rayon executes every spawned closure exactly once",
         "fewer than 2^32 bases (the code casts the length to u32)",
         "every CurveAffine used with msm_best is a short Weierstrass curve with a = 0 and without points of order two (BLS12-381 G1/G2, BN254 G1/G2)",
+        "scalars handed to msm_best are below 2^NUM_BITS (hval of msm_best_spec; true for every value a field type can hold)",
     ],
     "timeout": {"quick": 600, "thorough": 2400, "search": 600},
 }
